@@ -3,16 +3,17 @@
    Definitions only. *)
 From Coq Require Import PrimFloat ZArith List Bool.
 Import ListNotations.
-Require Import PyBase Solver SolverF Tracer.
+Require Import PyBase Solver SolverF SolveAll Tracer TracerSolve.
 Open Scope Z_scope.
 
 Definition ftrace := trace float.
 Definition ftraces := traces float.
 
 (* one call on the instance: which solve method, its options, the trace= and reset= keywords *)
-Inductive entry : Type := ESolveT (t : Z) | ESolvePeriod (lab : Z) | ESolve (ps : list nat).
+(* (labels are the integers of the span; the span is a Python list, searched with list.index = SolveAll.locate_index) *)
+Inductive entry : Type := ESolveT (t : Z) | ESolvePeriod (lab : Z) | ESolve (start end_ : option Z).
 Record call := mkCall { k_entry : entry; k_opts : fopts; k_targ : targ; k_reset : bool }.
-Inductive cres : Type := RBool (o : outcome bool) | RList (o : outcome (list bool)).
+Inductive cres : Type := RBool (o : outcome bool) | RSolve (o : outcome (sresult Z)).
 
 Definition f_traced_solve_t (sc : scripts) (cfg : tcfg) (a : targ) (reset : bool) (d : mdesc) (o : fopts) (t : Z)
            (s : fstate) (tr : ftraces) : (fstate * ftraces) * outcome bool :=
@@ -30,14 +31,14 @@ Definition f_call (sc : scripts) (cfg : tcfg) (span : list Z) (d : mdesc) (c : c
       let '(st, o) := traced_solve_t float PrimFloat.sub PrimFloat.abs PrimFloat.ltb fisfin fzero cfg (k_targ c) (k_reset c)
                                      ev be af d (k_opts c) t s tr in (st, RBool o)
   | ESolvePeriod lab =>
-      let '(st, o) := traced_solve_period float PrimFloat.sub PrimFloat.abs PrimFloat.ltb fisfin fzero cfg (k_targ c) (k_reset c)
-                                          ev be af span d (k_opts c) lab s tr in (st, RBool o)
-  | ESolve ps =>
-      let '(st, o) := traced_solve float PrimFloat.sub PrimFloat.abs PrimFloat.ltb fisfin fzero cfg (k_targ c) (k_reset c)
-                                   ev be af d (k_opts c) ps s tr in (st, RList o)
+      let '(st, o) := traced_solve_period_all float PrimFloat.sub PrimFloat.abs PrimFloat.ltb fisfin fzero cfg (k_targ c) (k_reset c)
+                                              ev be af Z (locate_index span) d (k_opts c) lab s tr in (st, RBool o)
+  | ESolve start end_ =>
+      let '(st, o) := traced_solve_all float PrimFloat.sub PrimFloat.abs PrimFloat.ltb fisfin fzero cfg (k_targ c) (k_reset c)
+                                       ev be af Z (locate_index span) d (k_opts c) span start end_ s tr in (st, RSolve o)
   end.
 
-(* the same call without the keywords (the untraced twin): Solver.solve_t_M and its two compositions *)
+(* the same call without the keywords (the untraced twin): Solver.solve_t_M, SolveAll.solve_period_M, SolveAll.solve_M *)
 Definition f_plain_call (sc : scripts) (span : list Z) (d : mdesc) (c : call) (s : fstate) : fstate * cres :=
   let n := length (status s) in
   let ev := s_ev n sc in let be := s_before n sc in let af := s_after n sc in
@@ -46,11 +47,11 @@ Definition f_plain_call (sc : scripts) (span : list Z) (d : mdesc) (c : call) (s
       let '(s', o) := solve_t_M float PrimFloat.sub PrimFloat.abs PrimFloat.ltb fisfin fzero ev be af d (k_opts c) t s in
       (s', RBool o)
   | ESolvePeriod lab =>
-      let '(s', o) := plain_solve_period float PrimFloat.sub PrimFloat.abs PrimFloat.ltb fisfin fzero ev be af span d (k_opts c) lab s in
+      let '(s', o) := solve_period_M float PrimFloat.sub PrimFloat.abs PrimFloat.ltb fisfin fzero ev be af Z (locate_index span) d (k_opts c) lab s in
       (s', RBool o)
-  | ESolve ps =>
-      let '(s', o) := plain_solve float PrimFloat.sub PrimFloat.abs PrimFloat.ltb fisfin fzero ev be af d (k_opts c) ps s in
-      (s', RList o)
+  | ESolve start end_ =>
+      let '(s', o) := solve_M float PrimFloat.sub PrimFloat.abs PrimFloat.ltb fisfin fzero ev be af Z (locate_index span) d (k_opts c) span start end_ s in
+      (s', RSolve o)
   end.
 
 (* ---- comparison with the implementation's observation ---- *)
@@ -63,16 +64,19 @@ Definition label_eqb (a b : tlabel) : bool :=
 Definition trace_eqb (a b : ftrace) : bool :=
   list_eqb Nat.eqb (tr_names a) (tr_names b) && list_eqb label_eqb (tr_index a) (tr_index b)
   && list_eqb (list_eqb feq_bits) (tr_values a) (tr_values b).
-Definition outl_eqb (a b : outcome (list bool)) : bool :=
+(* the three lists solve() returns: labels, positions, flags — and their common length *)
+Definition visit_eqb (a b : visit Z) : bool :=
+  let '(la, ta, ba) := a in let '(lb, tb, bb) := b in (la =? lb) && (ta =? tb) && Bool.eqb ba bb.
+Definition outl_eqb (a b : outcome (sresult Z)) : bool :=
   match a, b with
-  | Ret x, Ret y => list_eqb Bool.eqb x y
+  | Ret x, Ret y => Nat.eqb (r_len x) (r_len y) && list_eqb visit_eqb (r_visits x) (r_visits y)
   | Raise x, Raise y => exn_eqb x y
   | _, _ => false
   end.
 Definition cres_eqb (a b : cres) : bool :=
   match a, b with
   | RBool x, RBool y => out_eqb x y
-  | RList x, RList y => outl_eqb x y
+  | RSolve x, RSolve y => outl_eqb x y
   | _, _ => false
   end.
 
